@@ -407,6 +407,9 @@ def solve_affine_equations_for(unknowns, equations):
 
         (nonz_row,) = nonz_row
 
+        if np.count_nonzero(mat[nonz_row]) != 1:
+            raise RuntimeError(f"cannot uniquely solve for '{unknown}'")
+
         if abs(mat[nonz_row, j]) != 1:
             raise RuntimeError(
                     f"division with remainder in linear solve for '{unknown}'")
